@@ -12,7 +12,9 @@
 (* Yacc table x every token string up to length L.                         *)
 (***************************************************************************)
 EXTENDS CanonTable, Json, IOUtils
-CONSTANTS L, MAXOPS
+CONSTANTS L, MAXOPS,
+          Gap      \* the distance between errors the property promises (= ParseAtLeast; a model run with
+                   \* ParseAtLeast < Gap must be refuted)
 Gs == ndJsonDeserialize(IOEnv.GRAMMARS)
 
 VARIABLES gi, inp, tbl, tcost,
@@ -63,8 +65,8 @@ Spec == Init /\ [][Next]_rvars
 NoLoop == phase # "loop"
 \* errors are reported in strictly increasing position, each at least N real lexemes beyond the
 \* previous one; so their number is bounded by the input length
-Increasing == \A i \in 1 .. Len(errs) - 1 : errs[i + 1].la >= errs[i].la + ParseAtLeast
-Bounded == Len(errs) <= (Len(inp) \div ParseAtLeast) + 1
+Increasing == \A i \in 1 .. Len(errs) - 1 : errs[i + 1].la >= errs[i].la + Gap
+Bounded == Len(errs) <= (Len(inp) \div Gap) + 1
 \* every error except possibly the last carries a repair; the parse ends with a value iff all do
 AllButLastRepaired == \A i \in 1 .. Len(errs) - 1 : errs[i].nrep > 0
 Outcome == /\ phase = "acc"  => \A i \in 1 .. Len(errs) : errs[i].nrep > 0
